@@ -696,8 +696,178 @@ fn strat(_t: Tier) -> BoxedStrategy<Case> {
         .boxed()
 }
 
+// ---------------------------------------------------------------------------------------------
+// flood: a consumer that never drains its queue, however many messages pile up
+
+#[derive(Clone, Debug, Serialize, Deserialize, PartialEq)]
+pub struct FloodCase {
+    /// deliveries sent to the undrained consumer before anything else happens
+    pub backlog: u32,
+    pub body_len: u8,
+}
+
+pub struct FloodBroker {
+    salt: u64,
+    seq: HashMap<u16, u32>,
+}
+
+impl Responder for FloodBroker {
+    fn on_frame(&mut self, io: &mut BrokerIo, frame: &AMQPFrame) {
+        if let AMQPFrame::Method(ch, m) = frame {
+            let seq = self.seq.entry(*ch).or_insert(0);
+            if let Some(reply) = reply_for(self.salt, *ch, *seq, m) {
+                *seq += 1;
+                io.send_method(*ch, reply);
+            }
+        }
+    }
+}
+
+pub fn exec_flood(c: &FloodCase) -> Outcome {
+    let mut sess = open_session(&ClientCfg::default(), ServerCfg::default(), vec![], FloodBroker { salt: 9, seq: HashMap::new() });
+    let mut conn = match sess.conn.take() {
+        Some(c) => c,
+        None => {
+            let _ = sess.broker.stop();
+            return Outcome {
+                inconclusive: Some(format!("open failed {:?}", sess.open_error)),
+                ..Default::default()
+            };
+        }
+    };
+    let wire = sess.wire.clone();
+    let n = c.backlog as usize;
+    let body = body_bytes(c.body_len as usize, 5);
+    let bh = std::sync::Arc::new(sess.broker);
+    let bh2 = bh.clone();
+    let body2 = body.clone();
+    let res = crate::session::timed(Duration::from_secs(60), "avh-c03-flood", move || -> Result<(), (String, String)> {
+        let slow_ch = conn.open_channel(None).map_err(|e| ("setup-failed".to_string(), format!("{:?}", e)))?;
+        let fast_ch = conn.open_channel(None).map_err(|e| ("setup-failed".to_string(), format!("{:?}", e)))?;
+        let slow = slow_ch.basic_consume("slow", ConsumerOptions::default()).map_err(|e| ("setup-failed".to_string(), format!("{:?}", e)))?;
+        let fast = fast_ch.basic_consume("fast", ConsumerOptions::default()).map_err(|e| ("setup-failed".to_string(), format!("{:?}", e)))?;
+        let (slow_id, fast_id) = (slow_ch.channel_id(), fast_ch.channel_id());
+        let (slow_tag, fast_tag) = (slow.consumer_tag().to_string(), fast.consumer_tag().to_string());
+        // the whole backlog, then one delivery for the other consumer
+        let b3 = body2.clone();
+        bh2.cmd(move |_b, io| {
+            let mut bytes = Vec::with_capacity(n * 64);
+            for i in 0..n {
+                for f in content_frames(
+                    slow_id,
+                    AMQPClass::Basic(Basic::Deliver(basic::Deliver {
+                        consumer_tag: slow_tag.clone(),
+                        delivery_tag: i as u64 + 1,
+                        redelivered: false,
+                        exchange: String::new(),
+                        routing_key: "s".into(),
+                    })),
+                    &amiquip::AmqpProperties::default(),
+                    &b3,
+                    &[1000],
+                ) {
+                    bytes.extend_from_slice(&encode(&f));
+                }
+                if bytes.len() > 1 << 20 {
+                    io.wire.push(std::mem::take(&mut bytes));
+                }
+            }
+            for f in content_frames(
+                fast_id,
+                AMQPClass::Basic(Basic::Deliver(basic::Deliver {
+                    consumer_tag: fast_tag.clone(),
+                    delivery_tag: 1,
+                    redelivered: false,
+                    exchange: String::new(),
+                    routing_key: "f".into(),
+                })),
+                &amiquip::AmqpProperties::default(),
+                b"for the other consumer",
+                &[1000],
+            ) {
+                bytes.extend_from_slice(&encode(&f));
+            }
+            io.wire.push(bytes);
+        });
+        // nobody reads `slow`; the other consumer and a synchronous reply must not be delayed
+        match fast.receiver().recv_timeout(Duration::from_secs(20)) {
+            Ok(ConsumerMessage::Delivery(d)) if d.body == b"for the other consumer" => {}
+            other => return Err(("undrained-consumer-delays-others".to_string(), format!("the other consumer got {:?} while {} deliveries were queued for the undrained one", other.map(|_| "something else"), n))),
+        }
+        fast_ch.qos(0, 0, false).map_err(|e| ("undrained-consumer-delays-others".to_string(), format!("a synchronous call on another channel failed with a backlog of {}: {:?}", n, e)))?;
+        // now drain: everything is there, once, in order, intact
+        for i in 0..n {
+            match slow.receiver().recv_timeout(Duration::from_secs(10)) {
+                Ok(ConsumerMessage::Delivery(d)) => {
+                    if d.delivery_tag() != i as u64 + 1 || d.body != body2 {
+                        return Err(("backlog-message-differs".to_string(), format!("message {} of the backlog has tag {} / {} bytes", i + 1, d.delivery_tag(), d.body.len())));
+                    }
+                }
+                other => return Err(("backlog-message-lost".to_string(), format!("after {} of {} backlog messages: {:?}", i, n, other.map(|_| "a non-delivery")))),
+            }
+        }
+        if slow.receiver().try_recv().is_ok() {
+            return Err(("message-delivered-more-than-once".to_string(), "extra message after the backlog".to_string()));
+        }
+        std::mem::forget(slow);
+        std::mem::forget(fast);
+        conn.close().map_err(|e| ("connection-failed".to_string(), format!("{:?}", e)))?;
+        drop(slow_ch);
+        drop(fast_ch);
+        Ok(())
+    });
+    let io = wire.io_thread();
+    if let Ok(b) = std::sync::Arc::try_unwrap(bh) {
+        let _ = b.stop();
+    } else {
+        wire.push_eof();
+    }
+    if let Some(t) = io {
+        let p = take_panics(t);
+        if !p.is_empty() {
+            return Outcome::fail("io-thread-panic", format!("{} at {}", p[0].message, p[0].location));
+        }
+    }
+    match res {
+        None => {
+            wire.push_eof();
+            Outcome::hang("flood-hang", format!("session with a backlog of {} did not finish", n))
+        }
+        Some(Err((s, m))) => Outcome::fail(s, m),
+        Some(Ok(())) => Outcome::pass(n >= 2).label(if n >= 60_000 { "backlog>=60000" } else if n >= 1000 { "backlog>=1000" } else { "backlog<1000" }),
+    }
+}
+
+fn flood_strat(_t: Tier) -> BoxedStrategy<FloodCase> {
+    // powers of two and their neighbours up to 2^17, plus small uniform sizes
+    let backlog = prop_oneof![
+        4 => 0u32..600,
+        2 => (4u32..=13, -1i32..=1).prop_map(|(k, d)| ((1i64 << k) + d as i64) as u32),
+        1 => (14u32..=17, -1i32..=1).prop_map(|(k, d)| ((1i64 << k) + d as i64) as u32),
+    ];
+    (backlog, prop_oneof![Just(0u8), 1u8..40]).prop_map(|(backlog, body_len)| FloodCase { backlog, body_len }).boxed()
+}
+
+fn flood_enum(_t: Tier) -> Vec<FloodCase> {
+    [255u32, 256, 65_535, 65_536, 65_537]
+        .iter()
+        .map(|b| FloodCase { backlog: *b, body_len: 0 })
+        .collect()
+}
+
 pub fn parts() -> Vec<Box<dyn PartDyn>> {
     vec![
+        Box::new(Part::<FloodCase> {
+            name: "flood",
+            rule: "one consumer never drains its queue while the broker sends it a backlog of N deliveries (N from small values and powers of two +-1 up to 2^17, the values 255/256/65535/65536/65537 always included), then one delivery to a consumer on another channel and a synchronous call there; oracle: the other consumer and the call are served, afterwards the backlog is there completely, once, in order, intact, and the connection closes Ok; non-trivial = N >= 2; distinct by case hash",
+            cases: |t| t.pick(60, 1500),
+            threads: 8,
+            strategy: flood_strat,
+            exec: exec_flood,
+            enumerate: Some(flood_enum),
+            shrink_budget: 40,
+            confirm_runs: 2,
+        }),
         Box::new(Part::<Case> {
             name: "e2e",
             rule: "valid server histories: 1-4 channels (a thread each) with 0-3 consumers and an optional return listener, 1-29 messages (deliver / get-ok / get-empty / return, generated metadata and properties, bodies 0-12 000 bytes cut into generated body frames incl. 1-byte frames), a generated interleaving of the channels' frame sequences and a generated segmentation of the byte stream into reads (1-8 byte segments, would-block markers); optionally one consumer is not drained until all others are done; oracle: every receiver / get / return listener yields exactly the scripted messages, field by field, in order, exactly once (nothing queued after a final barrier), acks through the arrival channel do not panic and reach the wire on that channel; non-trivial = a multi-frame body has another channel's frame in between, or a read boundary falls inside a frame; distinct by case hash",
